@@ -94,9 +94,14 @@ def check(rep, tier):
         if ri % 3 == 0:
             Nrep = rng.randint(1, 4 if tier == "quick" else 6)
             how = rng.choice(["sequential", "async", "sync"])
+            poolsz = rng.choice([1, 2, None])
+            if ri == 0:
+                Nrep, how, poolsz = 4, "sync", 2      # always: several workers writing into the shared result dict (in reverse seed order, see impl.adversarial_pool)
+            elif ri == 3:
+                Nrep, how, poolsz = 3, "async", 3
             try:
                 with impl.quiet():
-                    SF = sfall.Snowfall(Nrep=Nrep, pool_size=rng.choice([1, 2, None]), k=dict(cfg["k"]), N_vials=cfg["shape"], dt=cfg["dt"], seed_v=cfg["seed_v"],
+                    SF = sfall.Snowfall(Nrep=Nrep, pool_size=poolsz, k=dict(cfg["k"]), N_vials=cfg["shape"], dt=cfg["dt"], seed_v=cfg["seed_v"],
                                         opcond=fr.gen_opcond.build(cfg["prog"], impl.opcond_mod()), configPath=impl.cfg_path(cfg["over"]), initIce=cfg["initIce"])
                     _run_study(SF, how)
                     fdf = SF.to_frame()
